@@ -207,3 +207,76 @@ Proof.
       destruct q as [sg' a' m' [l'|]]; [|discriminate]. rewrite to_tree_port_sub in En. inversion En; subst. exact Hq. }
   exact (H (SPort [] [] None (Some root))).
 Qed.
+
+(* ---- non-vacuity: { e::T:F, s/ -> { x::i } (exists while e is on), t#3::i } ------------------ *)
+From RtoscV Require Import Save.DeclModel Save.DeclProofs.
+Local Open Scope Z_scope.
+
+Definition ld (k : skind) (d : value) : leafdata :=
+  {| ld_kind := k; ld_min := None; ld_max := None; ld_opts := []; ld_default := d; ld_sel := None;
+     ld_table := []; ld_nodef := false; ld_init := [] |}.
+Definition fx_tree : list pt :=
+  [ PLeaf [101] None (ld KT [VT false]);                                     (* rToggle(e)            *)
+    PSub [115] None (Some [101]) None [ PLeaf [120] None (ld KI [VI 3]) ];   (* rRecurp(s) -> rParamI(x) *)
+    PLeaf [116] (Some 3%nat) (ld KB [VI 1; VI 1; VI 1]) ].                   (* rArrayI(t, 3)         *)
+Definition fx_tapp : app :=
+  [mkp [47; 101] KT false 1 [VT false] [];
+   mkp [47; 115; 47; 120] KI false 1 [VI 3] [0%nat];
+   mkp [47; 116] KB true 3 [VI 1; VI 1; VI 1] []].
+(* the metadata lookup: "s/" is enabled by "e" *)
+Definition apropos_fx (p : str) : option pmeta :=
+  if str_eqb p [47; 115; 47]
+  then Some {| enabled_by := Some [101]; depends := None; default_depends := None; port_name := [115; 47] |}
+  else None.
+
+Lemma fx_tapp_eq : app_of_tree fx_tree = fx_tapp.
+Proof. vm_compute. reflexivity. Qed.
+
+Lemma fx_full : full_conditions fx_tapp fx_state.
+Proof.
+  split; [|split; [reflexivity|split]].
+  - constructor.
+    + simpl. repeat constructor; simpl; intuition discriminate.
+    + intros i s Hi Hs. three i; simpl in Hs; discriminate.
+    + intros q s Hq Hs. three q; simpl in Hs; discriminate.
+    + intros q g Hq Hg. three q; simpl in Hg; try contradiction.
+      destruct Hg as [Hg|[]]. subst g. simpl. repeat split; try lia; try reflexivity;
+        try (intros x []); intros [].
+    + intros i Hi. three i; simpl; repeat split; try lia; try reflexivity; try discriminate;
+        intros selv; unfold default_with; simpl; destruct selv as [v|]; try reflexivity;
+        destruct (sel_key v); reflexivity.
+  - intros i Hi. three i; reflexivity.
+  - intros i x Hi Hx. change (saved fx_tapp fx_state) with [0%nat; 1%nat; 2%nat] in Hi.
+    destruct Hi as [Hi|[Hi|[Hi|[]]]]; subst i; simpl in Hx;
+      repeat (destruct Hx as [Hx|Hx]; [subst x; reflexivity|]); contradiction.
+Qed.
+
+Theorem pipeline_tree_nonvacuous :
+  let a := app_of_tree fx_tree in
+  (* the hypotheses of roundtrip_pipeline_tree *)
+  names_ok (sports_of fx_tree) = true /\
+  tree_ok (to_tree no_hash_search one_id (sports_of fx_tree)) /\ Forall pt_wf fx_tree /\
+  full_conditions a fx_state /\ comparable a fx_state /\ cstrings fx_state /\
+  declared a apropos_fx /\
+  (exists ps, pushes line apropos_fx 20 (msgs (save_lines a fx_state)) = Some ps /\ ranked ps) /\
+  (* the lines of the saved file handed to the tree: switch first restores the state ... *)
+  real_apply (fun _ l s => tree_apply_line no_hash_search one_id fx_tree l s) a
+             (map (the_line a fx_state) [0; 2; 1]%nat) (initial a) = (fx_state, true) /\
+  (* ... the line below the pointer sub-tree in front of its switch reaches no port *)
+  tree_apply_line no_hash_search one_id fx_tree (the_line a fx_state 1) (initial a) = None.
+Proof.
+  intros a. unfold a. rewrite fx_tapp_eq.
+  split; [vm_compute; reflexivity|]. split; [apply tree_ok_nohash|].
+  split; [repeat constructor|]. split; [exact fx_full|].
+  split.
+  { intros i Hi. three i; split; unfold value_comparable; repeat constructor. }
+  split.
+  { intros i x Hx. destruct i as [|[|[|i]]]; simpl in Hx;
+      repeat (destruct Hx as [Hx|Hx]; [subst x; exact I|]); try contradiction.
+    unfold val_at in Hx. destruct i; simpl in Hx; contradiction. }
+  split; [apply declared_b_sound; vm_compute; reflexivity|].
+  split.
+  { exists [(0%nat, 1%nat)]. split; [vm_compute; reflexivity|].
+    exists (fun n => n). intros d p [H|[]]. inversion H; subst. lia. }
+  rewrite <- fx_tapp_eq. split; vm_compute; reflexivity.
+Qed.
